@@ -19,6 +19,10 @@ T2(a, b) == [A |-> a, B |-> b]
 MCInitTables ==
     CASE Universe = "two"   -> { T2(LiveE({"G1"}, 0), LiveE({}, 0)) }
       [] Universe = "quick" -> { T3(LiveE({"G1"}, 0), LiveE({}, 0), AbsentE) }
+      [] Universe = "sim"   -> { T3(LiveE({"G1"}, 0), LiveE({}, 0), AbsentE),
+                                 T3(LiveE({"G1", "G2"}, 0), LiveE({"G2"}, 0), LiveE({}, 0)),
+                                 T3(LiveE({}, 0), AbsentE, AbsentE),
+                                 T3(LiveE({"G2"}, 0), LiveE({"G1"}, 0), LiveE({"G1", "G2"}, 0)) }
       [] Universe = "full"  -> { T3(LiveE({"G1"}, 0), LiveE({}, 0), AbsentE),
                                  T3(LiveE({"G1", "G2"}, 0), LiveE({"G2"}, 0), LiveE({}, 0)) }
 
@@ -48,10 +52,13 @@ Accts == << "S", "caller", "X" >>
 
 Agree(code, imp) == (code = 1 => imp = 1) /\ (imp = 1 => code \in {1, 3})
 
+SignerLists == [i \in DOMAIN Subjects |-> SignersOf(i)]
+
+\* (the bound quantifiers only make TLC evaluate the context / invocation stack / table view once per state)
 ImplAgrees ==
-    Running => \A i \in DOMAIN Subjects : \A k \in DOMAIN Accts :
-        Agree(AnswerCode(SignersOf(i), Accts[k], stack, tbl),
-              W!Code(ImplAnswer(SignersOf(i), Accts[k], dao, fr, stack)))
+    Running => \A x \in {CtxOf(stack, tbl)} : \A ist \in {IStack(fr)} : \A tv \in {TblView(dao, fr)} :
+        \A k \in DOMAIN Accts : \A a \in {ResolveAcct(Accts[k], stack)} : \A i \in DOMAIN SignerLists :
+            Agree(W!CodeX(SignerLists[i], a, x), W!Code(M!ImplCheckSt(SignerLists[i], a, ist, tv)))
 
 \* for Bug = "none": the coherence invariants of the Impl model
 Coherent == CacheCoherent /\ LayersShape /\ TypeOK
